@@ -11,6 +11,7 @@
 import PrologVerif.Proofs.DCGItems
 import PrologVerif.Proofs.DCGSemCall
 import PrologVerif.Proofs.DCGSem2Top
+import PrologVerif.Proofs.DCGSem2Phrase
 namespace PrologVerif.C17
 open PrologVerif PrologVerif.DCG PrologVerif.Grammar
 
@@ -456,6 +457,41 @@ theorem C17_translation_sound_complete_C_dynamic (cfg : Cfg) (gr : Grammar) (q l
   have := h.agrees q l hq n
   rw [hA, hD] at this
   exact this
+
+/-- **the open statement for a fresh third argument.**  Exactly the conclusion of
+    `C17_translation_sound_complete_statement` — phrase/3 of the specification (`Grammar.phrase`:
+    parse, then unify what is left with `r`), the answers projected on `t(q, l, r)` with
+    `projected` — in the setting of stage C with arbitrary closures, when `r` is a variable that
+    occurs neither in `q` nor in `l` (parsing with a remainder, recognition of a prefix,
+    generation).  What is missing for the full statement: see the end of this file. -/
+theorem C17_translation_sound_complete_fresh_remainder (cfg : Cfg) (gr : Grammar) (q l : Term) (b : Body)
+    (v n : Nat) (hq : Body.ofTerm q = .ok b) (h : SettingC false cfg gr b)
+    (hv : max (boundT q) (boundT l) ≤ v) :
+    let r := Term.var v
+    let k := max (boundT q) (max (boundT l) (boundT r))
+    let st0 : St := { σ := [], next := k }
+    let g := b.tr l r k
+    let tmpl := Term.mk "t" [q, l, r]
+    ∀ A D, solve cfg.uf (programOf gr) n g.1 { st0 with next := g.2 } = .ok A →
+      Grammar.phrase cfg gr n b st0 l r = .ok D →
+      projected cfg.uf tmpl A.answers = projected cfg.uf tmpl D := by
+  intro r k st0 g tmpl A D hA hD
+  have hk : k = v + 1 := by
+    show max (boundT q) (max (boundT l) (v + 1)) = v + 1
+    omega
+  have hg2 : g.2 = v + 1 + b.nhid := by
+    show (b.tr l r k).2 = _
+    rw [tr_next, hk]
+  have hA' : solve cfg.uf (programOf gr) n (b.tr l (.var v) (v + 1)).1 ⟨[], v + 1 + b.nhid⟩ = .ok A := by
+    rw [← hA]
+    show _ = solve cfg.uf (programOf gr) n (b.tr l r k).1 ⟨[], g.2⟩
+    rw [hg2, hk]
+  have hD' : Grammar.phrase cfg gr n b ⟨[], v + 1⟩ l (.var v) = .ok D := by
+    rw [← hD]
+    show _ = Grammar.phrase cfg gr n b ⟨[], k⟩ l r
+    rw [hk]
+  exact phrase_agrees cfg h.iso gr (fun r hr => Rule.okC_good (List.all_eq_true.1 h.rules r hr)) q l b hq h.body v
+    (by omega) (by omega) n A D hA' hD'
 
 /-! non-vacuity: the settings hold of concrete grammars, and both sides do succeed there (the
     kernel evaluates them) -/
